@@ -173,6 +173,33 @@ def portions_sub(chk, rng, w, wid):
                               "e": OP(op, ["idx", V("ps"), i],
                                       V("f%d" % i))})
     steps.append({"k": "sorted", "e": ["un", "sorted", V("ps")]})
+    # ... and against fresh quantities in ANOTHER unit of the type, at the
+    # two grid points around each exact share (allocate() adjusts portions
+    # after they were built: whatever was derived from the amount before
+    # must not be used afterwards)
+    import math
+    tname = w.units[u].tname
+    others = [uu.sym for uu in w.units_of(tname) if uu.sym != u and
+              w.units[uu.sym].factor != w.units[u].factor]
+    probes = []
+    if others:
+        v = rng.choice(others)
+        fu, fv = w.units[u].factor, w.units[v].factor
+        rs = [val_ for val_ in (F(r_[1]) for r_ in ratios[1])]
+        for i in range(n):
+            share = x * rs[i] / sum(rs)
+            lo = math.floor(share / q) * q
+            for gi, g in enumerate((lo, lo + q)):
+                steps.append({"id": "x%d_%d" % (i, gi),
+                              "e": Q(num(g * fu / fv), v)})
+                for op in OPS:
+                    steps.append({"k": "x%d_%d%s" % (i, gi, op),
+                                  "e": OP(op, ["idx", V("ps"), i],
+                                          V("x%d_%d" % (i, gi)))})
+                    steps.append({"k": "y%d_%d%s" % (i, gi, op),
+                                  "e": OP(op, V("x%d_%d" % (i, gi)),
+                                          ["idx", V("ps"), i])})
+                probes.append((i, gi, g))
 
     def judge(obs):
         ps = (obs or {}).get("ps")
@@ -196,6 +223,18 @@ def portions_sub(chk, rng, w, wid):
                     if r.get("v") is not want:
                         bad.append("portion %s %s %s an equal fresh quantity "
                                    "is %s" % (vals[i], u, op, brief(r)))
+        for i, gi, g in probes:
+            chk.count("allocate() results compared across units")
+            for op in OPS:
+                for pre, want in (("x", PY[op](vals[i], g)),
+                                  ("y", PY[op](g, vals[i]))):
+                    r = obs.get("%s%d_%d%s" % (pre, i, gi, op), {})
+                    if r.get("v") is not want:
+                        bad.append("portion %s %s %s %s (= %s %s, given in "
+                                   "%s)%s is %s" %
+                                   (vals[i], u, op, g, g, u, v,
+                                    " mirrored" if pre == "y" else "",
+                                    brief(r)))
         srt = obs.get("sorted", {})
         if srt.get("k") == "T":
             seq = [val(p) for p in srt["items"]]
@@ -257,6 +296,7 @@ def run(chk, R, tier, seed):
         st, jd = portions_sub(chk, rng, w, "predefined")
         cases.append(Case(st, wrap(jd)))
     chk.require("comparisons of allocate() results")
+    chk.require("allocate() results compared across units")
     run_cases(chk, R, cases, per_program=60)
     nw = 60 if tier == "quick" else 800
     cases = []
